@@ -59,8 +59,12 @@ fn containers(seed: u64, tier: Tier) -> Vec<(String, Logical)> {
         Tier::Thorough => &[1, 2, 3, 4, 5],
     };
     let mut k = 0;
+    // thorough: several generations of every container shape
+    let generations = if tier == Tier::Quick { 1 } else { 6 };
+    for generation in 0..generations {
     for &p in packs {
         for comp in [Comp::None, Comp::Zstd(3), Comp::Lz4(3), Comp::Lzma(3)] {
+            let suffix = if generation == 0 { String::new() } else { format!("-g{generation}") };
             if tier == Tier::Quick && p == 3 && !matches!(comp, Comp::None | Comp::Zstd(_)) {
                 continue;
             }
@@ -84,7 +88,7 @@ fn containers(seed: u64, tier: Tier) -> Vec<(String, Logical)> {
             // uuid inside the file at hand, whatever sits at their recorded locations
             if k % 2 == 0 || p == 2 {
                 out.push((
-                    format!("c11-embedded-p{p}-{}", comp.name()),
+                    format!("c11-embedded-p{p}-{}{suffix}", comp.name()),
                     Logical {
                         comp,
                         packaging: Packaging::Concat,
@@ -103,7 +107,7 @@ fn containers(seed: u64, tier: Tier) -> Vec<(String, Logical)> {
                 ));
             }
             out.push((
-                format!("c11-p{p}-{}", comp.name()),
+                format!("c11-p{p}-{}{suffix}", comp.name()),
                 Logical {
                     comp,
                     packaging: Packaging::Loose,
@@ -121,6 +125,7 @@ fn containers(seed: u64, tier: Tier) -> Vec<(String, Logical)> {
                 },
             ));
         }
+    }
     }
     out
 }
